@@ -20,12 +20,14 @@ export VERIF_REPO="$scratch/repo" VERIF_BUILD_DIR="$scratch/build" VERIF_EVIDENC
 cd /verif
 for pr in $prop; do
   ./check "$pr" "$tier" > "$scratch/out.$pr.log" 2>&1; rc=$?
-  echo "MUTANT: $(basename "$patch") $pr $tier exit=$rc  $(grep -c '^VIOLATION' "$scratch/out.$pr.log") VIOLATION line(s)"
-  grep -E '^(violation|VIOLATION|KNOWN|INFRA|BUILD)' "$scratch/out.$pr.log" | head -6
+  echo "MUTANT: $(basename "$patch") $pr $tier exit=$rc  $(grep -a -c '^VIOLATION' "$scratch/out.$pr.log") VIOLATION line(s)"
+  grep -a -E '^(violation|VIOLATION|KNOWN|INFRA|BUILD)' "$scratch/out.$pr.log" | head -6
   [ "${VERBOSE:-0}" = 1 ] && cat "$scratch/out.$pr.log"
+  # infrastructure trouble must be diagnosable afterwards
+  if [ "$rc" = 2 ]; then mkdir -p /tmp/infra-logs; cp "$scratch/out.$pr.log" "/tmp/infra-logs/$(basename "$patch" .diff)-$pr-$$.log"; fi
   # every replay file the check wrote must reproduce, in a fresh process, on the same mutated tree
-  for rf in $(grep '^VIOLATION' "$scratch/out.$pr.log" | sed 's/.*replay=//'); do
-    if ./check replay "$rf" > "$scratch/replay.log" 2>&1; then rr="NOT-REPRODUCED"; else rr=$(grep -o 'REPRODUCED[-A-Z]*' "$scratch/replay.log" | head -1); fi
+  for rf in $(grep -a '^VIOLATION' "$scratch/out.$pr.log" | sed 's/.*replay=//'); do
+    if ./check replay "$rf" > "$scratch/replay.log" 2>&1; then rr="NOT-REPRODUCED"; else rr=$(grep -a -o 'REPRODUCED[-A-Z]*' "$scratch/replay.log" | head -1); fi
     echo "MUTANT: replay $(basename "$rf"): ${rr:-?}"
   done
 done
